@@ -426,8 +426,16 @@ impl World {
     }
 }
 
+// Next hop number n in its wire form: the table stores the form as received and tracks the
+// ADDRESS (the global part); numbers 2 mod 3 are IPv6 global + link-local (32 octets on the
+// wire), 0 mod 3 a plain IPv6 address, the rest IPv4.
 fn nh_of(n: u64) -> Nexthop {
-    Nexthop::V4(Ipv4Addr::new(172, 16, (n >> 8) as u8, n as u8))
+    let g = std::net::Ipv6Addr::new(0x2001, 0xdb8, 0, 0, 0, 0, (n >> 8) as u16, n as u16 & 0xff);
+    match n % 3 {
+        2 => Nexthop::V6LinkLocal(g, std::net::Ipv6Addr::new(0xfe80, 0, 0, 0, 0, 0, 0, n as u16)),
+        0 => Nexthop::V6(g),
+        _ => Nexthop::V4(Ipv4Addr::new(172, 16, (n >> 8) as u8, n as u8)),
+    }
 }
 fn nh_val(n: &Nexthop) -> Val {
     match n {
@@ -435,7 +443,10 @@ fn nh_val(n: &Nexthop) -> Val {
             let o = a.octets();
             Val::n(((o[2] as u64) << 8) | o[3] as u64)
         }
-        _ => Val::I(-3),
+        Nexthop::V6(a) | Nexthop::V6LinkLocal(a, _) => {
+            let s = a.segments();
+            Val::n(((s[6] as u64) << 8) | s[7] as u64)
+        }
     }
 }
 
@@ -542,10 +553,7 @@ fn run_rib_case(case: &Val) -> Val {
             }
             // [4, nh, reachable]
             4 => {
-                let nh = match nh_of(l[1].u64()) {
-                    Nexthop::V4(a) => IpAddr::V4(a),
-                    _ => unreachable!(),
-                };
+                let nh = nh_of(l[1].u64()).addr();
                 changes = w.table.update_nexthop_validity(nh, l[2].bool());
             }
             // [7, counter, addr]: PeerSession::sync_prefix_counters of the daemon, counter := prefixes
